@@ -333,7 +333,9 @@ pub fn run(prop: &str, tier: &str, replay: Option<&str>) -> i32 {
             let (alt_kp, alt_log) = scripted_key(alt_alg, &alt_z.raw_pub, vec![], Some(ossl_signer(alt_z.pkey.clone(), alt_alg)));
             let alt = RealKey { label: format!("{} (remote)", alt_z.name), kp: alt_kp, pubk: alt_z.key_pub(alt_alg), log: Some(alt_log) };
             let alt_issuer = issuer_for(&alt, Some(alt_z));
-            run::levels(&sec, &sspace, if rsa { 1 } else { 2 }, &|c, _| {
+            // quick: level 2 for the first key presentation only (the request alphabets have grown with the content checks; what a
+            // signature is made over does not depend on them), level 1 for the others; thorough: level 2 for every non-RSA key
+            run::levels(&sec, &sspace, if rsa || (!thorough && ki > 0) { 1 } else { 2 }, &|c, _| {
                 let mut out = judge_csr(c, k, Some((&issuer, k)));
                 let o2 = judge_csr(c, k, Some((&alt_issuer, &alt)));
                 out.findings.extend(o2.findings.into_iter().map(|mut f| {
@@ -435,6 +437,33 @@ pub fn run(prop: &str, tier: &str, replay: Option<&str>) -> i32 {
             out.transitions += o2.transitions;
             out.findings.dedup_by(|a, b| a.sig() == b.sig());
             out.digest = fnv(a.name().as_bytes());
+            out
+        });
+        rep.add(sec);
+    }
+    // aws-lc-rs only: RSA keys generated for a requested SIZE
+    #[cfg(feature = "aws")]
+    {
+        use rcgen::RsaKeySize;
+        let sizes: Vec<(RsaKeySize, usize)> = if thorough { vec![(RsaKeySize::_2048, 2048), (RsaKeySize::_3072, 3072), (RsaKeySize::_4096, 4096)] } else { vec![(RsaKeySize::_2048, 2048), (RsaKeySize::_3072, 3072)] };
+        let algs = [Alg::RsaSha256, Alg::RsaSha384, Alg::RsaSha512];
+        let cases: Vec<(usize, usize)> = (0..sizes.len()).flat_map(|s| (0..algs.len()).map(move |a| (s, a))).filter(|c| thorough || c.0 == 0 || c.1 == 0).collect();
+        let sec = Section::new("keys/generated-rsa-sizes", "KeyPair::generate_rsa_for every RSA algorithm x key size (quick: 2048 bits under each digest, 3072 under SHA-256): the modulus has the requested length, the key is labelled with the requested algorithm, and what it signs verifies").with_deadline(if thorough { 600 } else { 40 });
+        run::sweep_cases(&sec, &cases, &|c| format!("generate_rsa_for({}, {})", algs[c.1].name(), sizes[c.0].1), &|c| {
+            let mut out = Outcome::default();
+            let a = algs[c.1];
+            let Ok(kp) = rcgen::KeyPair::generate_rsa_for(rc_alg(a).unwrap(), sizes[c.0].0) else {
+                out.findings.push(Finding::new("ALG-NOT-REGISTERED", "generate_rsa_for", "refused"));
+                return out;
+            };
+            let raw = rcgen::PublicKeyData::der_bytes(&kp).to_vec();
+            if rsa_modulus_bits(&raw) != Some(sizes[c.0].1) || alg_of(kp.algorithm()) != Some(a) {
+                out.findings.push(Finding::new("ALG-NOT-REGISTERED", "generate_rsa_for", format!("asked for {} bits under {}: got {:?} bits labelled {:?}", sizes[c.0].1, a.name(), rsa_modulus_bits(&raw), kp.algorithm())));
+                return out;
+            }
+            let k = RealKey { label: format!("generated RSA {} {}", sizes[c.0].1, a.name()), kp, pubk: KeyPub { alg: a, raw }, log: None };
+            out = judge_cert(&CertState::default(), &k, None, &k);
+            out.digest = fnv(format!("{:?}", c).as_bytes());
             out
         });
         rep.add(sec);
